@@ -4,7 +4,7 @@
    Two processes, M (the caller's thread inside `with indicator.auto(start, end): body`) and S (the spinner
    thread running ProgressIndicator._spin), plus the virtual clock (Tick).  Every action is one *step* of the
    baton scheduler (harness/engine/baton.py): the thread performs the operation it was waiting at and runs on
-   to its next yield point.  Yield points: each stream write, sleep, Thread.start / join, Event.set / is_set,
+   to its next yield point.  Yield points: each stream write, sleep, Thread.start / join, Event.set (before and after) / is_set,
    Lock.acquire, and the explicit "work" point of the body.  Reading the clock and releasing the lock are not
    yield points (they are atomic with the step they belong to).  The program counters name the operation a
    thread is *about to* perform.
@@ -15,6 +15,8 @@
           w        terminal width,
           interval the indicator's redraw interval (ms),
           start, end   the two messages of auto()                 (cells = 1-character strings, no blanks),
+          next     <<>> or <<cfg'>>: the configuration of a second use of auto() on the SAME indicator object, begun
+                   when the first one is over (same terminal, the clock goes on); prev = the messages of earlier runs,
           body     the with-body: a sequence of [k |-> "set" | "work" | "raise" | "interrupt", m |-> cells]]
    set = set_message(m) . work = a yield point without effect . raise = the body raises an Exception (ends the body) .
    interrupt = the body raises KeyboardInterrupt (a BaseException; auto() treats it like any other failure of the body).
@@ -44,15 +46,16 @@ VARIABLES cfg,
           clock,                    \* virtual clock, ms
           term,                     \* the terminal the error output is connected to
           outcome,                  \* "" while M is inside; "normal" | "raised"
+          r0,                       \* the terminal row the cursor was on when this run (this use of auto()) began
           last                      \* the step just taken, as the harness records it: [th, op, ops] (+ at)
 vars == <<cfg, pcM, mph, bi, mframe, pcS, sframe, sdead, message, current, update, stop, lock, clock, term,
-          outcome, last>>
+          outcome, r0, last>>
 
 Quiet == cfg.mode = "quiet"
 Plain == cfg.mode = "plain"
 NoMix == NoMixT(term, MsgsOf(cfg), cfg.mode)
 Joined == pcM = "done" => pcS \in {"new", "done"}      \* "new": never started - cannot happen in auto()
-EndFrame == (pcM = "done" /\ outcome = "normal" /\ ~Quiet) => EndFrameT(term, cfg.end, cfg.mode)
+EndFrame == (pcM = "done" /\ outcome = "normal" /\ ~Quiet) => EndFrameT(term, cfg.end, cfg.mode, r0)
 Terminates == <>(pcM = "done")
 
 \* ------------------------------------------------------------------ A-layer
@@ -80,18 +83,37 @@ Enter(i) == LET c == Cont(i, message) IN
             /\ pcM' = c.pc /\ bi' = c.bi /\ message' = c.msg /\ mph' = c.mph
             /\ mframe' = IF c.pc \in {"erase", "frame"} THEN FrameOf(current, c.msg) ELSE mframe   \* unlocked code only
 
+\* a run begins: start() has run up to its first yield point.  t, clk: the terminal and the clock it finds.
+BeginVals(c, t, clk) ==
+  [cfg |-> c,
+   pcM |-> IF c.mode = "quiet" THEN "tstart"                       \* start() draws nothing
+           ELSE IF Locked THEN "lock" ELSE IF c.mode = "plain" THEN "frame" ELSE "erase",
+   mframe |-> IF Locked \/ c.mode = "quiet" THEN <<>> ELSE IF c.mode = "plain" THEN <<" ">> \o c.start ELSE Frame(0, c.start),
+   update |-> clk + c.interval, r0 |-> t.r]
 InitWith(c) ==
-  /\ cfg = c
-  /\ pcM = IF c.mode = "quiet" THEN "tstart"                       \* start() draws nothing
-           ELSE IF Locked THEN "lock" ELSE IF c.mode = "plain" THEN "frame" ELSE "erase"
-  /\ mph = "s" /\ bi = 0
-  /\ mframe = IF Locked \/ c.mode = "quiet" THEN <<>> ELSE IF c.mode = "plain" THEN <<" ">> \o c.start ELSE Frame(0, c.start)
+  LET v == BeginVals(c, TermNew(c.w), 0) IN
+  /\ cfg = c /\ pcM = v.pcM /\ mph = "s" /\ bi = 0 /\ mframe = v.mframe
   /\ pcS = "new" /\ sframe = <<>> /\ sdead = 0
-  /\ message = c.start /\ current = 0 /\ update = c.interval     \* start(): clock = 0
+  /\ message = c.start /\ current = 0 /\ update = v.update
   /\ stop = FALSE /\ lock = "" /\ clock = 0
-  /\ term = TermNew(c.w)
+  /\ term = TermNew(c.w) /\ r0 = 1
   /\ outcome = ""
   /\ last = Ev("", "new", <<>>)
+\* the same indicator object is used again (auto() a second time) on the terminal t; nothing of the first run matters
+\* but where the cursor is and what time it is
+RestartOn(t) ==
+  /\ pcM = "done" /\ pcS = "done" /\ cfg.next # <<>>
+  /\ outcome = "normal"      \* (after a body that raised the indicator stays "started" and refuses another start(): not modelled)
+  /\ LET c == cfg.next[1]
+         v == BeginVals(c, t, clock) IN
+     /\ cfg' = c /\ pcM' = v.pcM /\ mph' = "s" /\ bi' = 0 /\ mframe' = v.mframe
+     /\ pcS' = "new" /\ sframe' = <<>> /\ sdead' = 0
+     /\ message' = c.start /\ current' = 0 /\ update' = v.update
+     /\ stop' = FALSE /\ lock' = "" /\ UNCHANGED clock
+     /\ term' = t /\ r0' = t.r
+     /\ outcome' = ""
+     /\ last' = [th |-> "", op |-> "new", ops |-> <<>>, at |-> outcome]      \* at: how the run before ended
+Restart == RestartOn(term)
 
 MLock == /\ pcM = "lock" /\ lock = ""
          /\ lock' = "M" /\ mframe' = FrameOf(current, message) /\ pcM' = IF Plain THEN "frame" ELSE "erase"
@@ -121,17 +143,24 @@ MWork == /\ pcM = "work" /\ Enter(bi + 1)
 MXLf == /\ pcM = "x_lf" /\ term' = ApplyOps(term, LFOps) /\ pcM' = "x_set"
         /\ last' = Ev("M", "write", LFOps)
         /\ UNCHANGED <<mph, bi, mframe, message, current, stop, lock, outcome, pcS>>
-MXSet == /\ pcM = "x_set" /\ stop' = TRUE /\ pcM' = "x_join"
+MXSet == /\ pcM = "x_set" /\ stop' = TRUE /\ pcM' = "x_setret"
          /\ last' = Ev("M", "set", <<>>)
          /\ UNCHANGED <<mph, bi, mframe, message, current, lock, term, outcome, pcS>>
+\* set() has returned; what follows (looking up the thread, join) is a step of its own: S may run in between
+MXSetRet == /\ pcM = "x_setret" /\ pcM' = "x_join"
+            /\ last' = Ev("M", "setret", <<>>)
+            /\ UNCHANGED <<mph, bi, mframe, message, current, stop, lock, term, outcome, pcS>>
 MXJoin == /\ pcM = "x_join" /\ pcS = "done"
           /\ pcM' = "done" /\ outcome' = "raised"
           /\ last' = Ev("M", "join", <<>>)
           /\ UNCHANGED <<mph, bi, mframe, message, current, stop, lock, term, pcS>>
 \* normal exit:  finish(end, reset_indicator=True)
-MFSet == /\ pcM = "f_set" /\ stop' = TRUE /\ pcM' = "f_join"
+MFSet == /\ pcM = "f_set" /\ stop' = TRUE /\ pcM' = "f_setret"
          /\ last' = Ev("M", "set", <<>>)
          /\ UNCHANGED <<mph, bi, mframe, message, current, lock, term, outcome, pcS>>
+MFSetRet == /\ pcM = "f_setret" /\ pcM' = "f_join"
+            /\ last' = Ev("M", "setret", <<>>)
+            /\ UNCHANGED <<mph, bi, mframe, message, current, stop, lock, term, outcome, pcS>>
 MFJoin == /\ pcM = "f_join" /\ pcS = "done"
           /\ message' = cfg.end /\ current' = 0 /\ mph' = "f"
           /\ IF Quiet THEN pcM' = "done" /\ outcome' = "normal" /\ UNCHANGED mframe      \* nothing more reaches the stream
@@ -144,8 +173,9 @@ MFLf == /\ pcM = "f_lf" /\ term' = ApplyOps(term, LFOps)
         /\ last' = Ev("M", "write", LFOps)
         /\ UNCHANGED <<mph, bi, mframe, message, current, stop, lock, pcS>>
 
-MStep == /\ (MLock \/ MErase \/ MFrame \/ MThreadStart \/ MWork \/ MXLf \/ MXSet \/ MXJoin \/ MFSet \/ MFJoin \/ MFLf)
-         /\ UNCHANGED <<cfg, sframe, sdead, update, clock>>
+MStep == /\ (MLock \/ MErase \/ MFrame \/ MThreadStart \/ MWork \/ MXLf \/ MXSet \/ MXSetRet \/ MXJoin \/ MFSet \/ MFSetRet
+             \/ MFJoin \/ MFLf)
+         /\ UNCHANGED <<cfg, sframe, sdead, update, clock, r0>>
 
 \* S:  while not _auto_running.is_set(): advance(); time.sleep(0.1)
 SIsSet == /\ pcS = "isset"
@@ -178,15 +208,15 @@ SWake == /\ pcS = "sleep" /\ clock >= sdead
          /\ UNCHANGED <<sframe, sdead, current, update, lock, term>>
 
 SStep == /\ (SIsSet \/ SLock \/ SErase \/ SFrame \/ SWake)
-         /\ UNCHANGED <<cfg, pcM, mph, bi, mframe, message, stop, clock, outcome>>
+         /\ UNCHANGED <<cfg, pcM, mph, bi, mframe, message, stop, clock, outcome, r0>>
 
 Tick(d) == /\ clock' = clock + d
            /\ last' = Ev("T", "tick", <<>>)
            /\ UNCHANGED <<cfg, pcM, mph, bi, mframe, pcS, sframe, sdead, message, current, update, stop, lock, term,
-                          outcome>>
+                          outcome, r0>>
 
 \* what the scheduler calls "enabled"
-EnM == \/ pcM \in {"erase", "frame", "tstart", "work", "x_lf", "x_set", "f_set", "f_lf"}
+EnM == \/ pcM \in {"erase", "frame", "tstart", "work", "x_lf", "x_set", "x_setret", "f_set", "f_setret", "f_lf"}
        \/ pcM = "lock" /\ lock = ""
        \/ pcM \in {"x_join", "f_join"} /\ pcS = "done"
 EnS == \/ pcS \in {"isset", "erase", "frame"}
@@ -194,7 +224,7 @@ EnS == \/ pcS \in {"isset", "erase", "frame"}
        \/ pcS = "sleep" /\ clock >= sdead
 \* the operation each thread is waiting at, as the scheduler names it
 OpOfM == CASE pcM = "lock" -> "acquire" [] pcM \in {"erase", "frame", "x_lf", "f_lf"} -> "write"
-           [] pcM = "tstart" -> "start" [] pcM = "work" -> "work" [] pcM \in {"x_set", "f_set"} -> "set"
+           [] pcM = "tstart" -> "start" [] pcM = "work" -> "work" [] pcM \in {"x_set", "f_set"} -> "set" [] pcM \in {"x_setret", "f_setret"} -> "setret"
            [] pcM \in {"x_join", "f_join"} -> "join" [] OTHER -> "none"
 OpOfS == CASE pcS = "lock" -> "acquire" [] pcS \in {"erase", "frame"} -> "write" [] pcS = "isset" -> "isset"
            [] pcS = "sleep" -> "sleep" [] OTHER -> "none"
